@@ -35,7 +35,24 @@ def type_strings(rng, n_random):
 
 def run(ctx):
     import nir
+    from canon import canon, canon_node
     rng = ctx.rng
+    cases, obs, reqs = [], [], []
+
+    def corr(d):
+        """model vs implementation on an arbitrary (possibly malformed) node dictionary"""
+        try:
+            cj = canon(d)
+            if "?" in __import__("json").dumps(cj):
+                return
+            try:
+                o = canon_node(nir.dict2NIRNode(copy.deepcopy(d)))
+            except Exception as e:  # noqa
+                o = {"err": err_name(e)}
+            c = {"op": "from_dict", "d": cj}
+            cases.append(c); obs.append(o); reqs.append(c)
+        except Exception:
+            pass
     # ---- closed world: no string outside the whitelist constructs anything -------------------------
     victims = {k: impl_construct(gen.node_recipe(rng, k, meta_p=0)).to_dict() for k in gen.LEAF_KINDS}
     strings = type_strings(rng, 50 if ctx.tier == "quick" else 2000)
@@ -51,6 +68,8 @@ def run(ctx):
                 d = {"type": "NIRGraph", "nodes": {"a": d}, "edges": []}
             case = {"op": "type_string", "s": s, "where": where}
             ctx.case(case); ctx.count("type_strings")
+            if len(cases) < 400 and "\x00" not in s:
+                corr(d)
             try:
                 obj = nir.dict2NIRNode(d)
                 ctx.violate(case, f"type string {s!r} outside the whitelist constructed an object",
@@ -104,6 +123,7 @@ def run(ctx):
                         wrapped = {"type": "NIRGraph", "nodes": {"inner": wrapped, "pad": copy.deepcopy(victims["Scale"])}, "edges": []}
                     case = {"op": "malformed", "kind": kind, "edit": op, "key": key, "depth": depth}
                     ctx.case(case); ctx.count(f"malformed_{op}")
+                    corr(wrapped)
                     for via in ("dict", "file"):
                         try:
                             if via == "dict":
@@ -124,6 +144,7 @@ def run(ctx):
                                         observed=type(obj).__name__)
                         except Exception:
                             pass
+        ctx.compare("dicts", cases, obs, reqs)
     finally:
         import shutil
         shutil.rmtree(tmpdir, ignore_errors=True)
